@@ -207,15 +207,15 @@ def gen_cases(tier):
                 for micro in (2e-6, 2e-5):
                     yield dict(fam="spread", depth=depth, heavy=heavy, micro=micro, pol=1, pal=pal)
         # B overload at every position
-        for n in ((1, 2, 3) if tier == "quick" else (1, 2, 3, 4)):
+        for n in ((1, 2, 3) if tier == "quick" or pal != sd % 3 else (1, 2, 3, 4)):
             for f in over.iter_forests(n):
                 for pol, srs in ((1, 0.0), (1, _r(2.0 * PALETTES[pal]["V"])), (-1, 0.0), (-1, 0.37)):
                     yield dict(fam="over", f=f, pal=pal, pol=pol, srs=srs)
         # C liveness
-        for n in ((1, 2, 3) if tier == "quick" else (1, 2, 3, 4)):
+        for n in ((1, 2, 3) if tier == "quick" or pal != sd % 3 else (1, 2, 3, 4)):
             for f in mid.iter_forests(n):
                 yield dict(fam="live", f=f, pal=pal, pol=1, srs=0.37)
-        for n in ((5,) if tier == "quick" else (5, 6)):
+        for n in ((5,) if tier == "quick" or pal != sd % 3 else (5, 6)):
             for f in deep.iter_forests(n):
                 yield dict(fam="live", f=f, pal=pal, pol=1, srs=0.37)
 
